@@ -3,7 +3,9 @@ From Coq Require Import List NArith ZArith Bool.
 From GoPdf.Base Require Import Bytes Res.
 From GoPdf.Gen Require Import Gen_C08 Gen_Limits.
 From GoPdf.C08 Require Import Stream Simple LZW Predict Params Chain Classify Run
-  SimpleProofs LZWProofs PredictProofs ParamsProofs ChainProofs ClassifyProofs BudgetProofs RunProofs.
+  SimpleProofs LZWProofs PredictProofs ParamsProofs ChainProofs ClassifyProofs BudgetProofs RunProofs
+  Charge CCITT ChargeProofs CCITTProofs.
+From GoPdf.Gen Require Import Gen_C08dct.
 Import ListNotations.
 
 Lemma dec_total_lemma :
@@ -71,3 +73,27 @@ Proof.
                              end)
               construct_classified).
 Qed.
+
+
+Lemma dct_charge_covers_alloc_lemma :
+  (forall g mxx smyy, geom_ok g -> (0 <= mxx)%Z -> (0 <= smyy)%Z ->
+     (0 <= plane_alloc g mxx smyy <= plane_charge g mxx smyy)%Z /\
+     plane_alloc g mxx smyy = plane_charge g mxx smyy) /\
+  (forall mxx myy h v, (0 <= mxx)%Z -> (0 <= myy)%Z -> (0 <= h)%Z -> (0 <= v)%Z ->
+     site_ok (prog_site mxx myy h v) /\ s_alloc (prog_site mxx myy h v) = s_charge (prog_site mxx myy h v)).
+Proof.
+  split.
+  - intros g mxx smyy Hg Hm Hs. destruct (plane_site_ok g mxx smyy Hg Hm Hs) as [H1 H2].
+    split; [|exact H1]. rewrite <- H1. split; [exact H2 | apply Z.le_refl].
+  - exact prog_site_ok.
+Qed.
+
+Lemma charge_covers_alloc_lemma :
+  (forall p, pp_validate p = true -> p_pred p <> 1%Z ->
+     site_ok (predict_site p) /\ s_alloc (predict_site p) = s_charge (predict_site p)) /\
+  (forall cols k, (0 < cols)%Z ->
+     site_ok (ccitt_site cols k) /\ s_alloc (ccitt_site cols k) = s_charge (ccitt_site cols k)) /\
+  (forall limit ops, (0 <= limit)%Z ->
+     let p := fst (pool_run (Pool 0 0 limit) ops 0) in (0 <= p_live p <= limit)%Z) /\
+  lzw_table_bytes = 20480%Z.
+Proof. exact (conj predict_site_ok (conj ccitt_site_ok (conj pool_live_within_limit lzw_table_bytes_eq))). Qed.
